@@ -76,7 +76,7 @@ func validateUnionCases(env *Environment, errorSink *validation.ErrorSink) *Envi
 
 			if len(cases) > 1 {
 				for _, typeCase := range cases {
-					if childType, ok := typeCase.Type.(*GeneralizedType); ok && len(childType.Cases) > 1 {
+					if childType, ok := typeCase.Type.(*GeneralizedType); ok && childType.Dimensionality == nil && len(childType.Cases) > 1 {
 						errorSink.Add(validationError(typeCase, "unions may not immediately contain other unions"))
 					}
 				}
